@@ -60,6 +60,7 @@ func vpSimID(i int) identity.AgentID {
 		id[j] = byte(0xA0 + i)
 	}
 	id[15] = byte(i + 1)
+	id[14] ^= byte(i >> 8) // chains longer than 255 nodes (C15 long chains); unchanged below 256
 	return id
 }
 
